@@ -89,6 +89,7 @@ def catalogue():
     C["minimum"] = (lambda E: [E.x.minimum(E.z)], True)
     C["maximum"] = (lambda E: [E.x.maximum(E.y)], True)
     C["add_same_dims"] = (lambda E: [E.x + E.x, E.x * 1, E.x + 0, E.x / 1, E.x - 0], True)
+    C["neutral_reflected"] = (lambda E: [0 + E.x, 0.0 + E.x, 1 * E.x, 1.0 * E.x, sum([E.x]), sum([E.y], 0), E.x ** 1, E.s + 0, 0 + E.s], True)
     C["scalar_ops"] = (lambda E: [E.x + k, k + E.x, E.x - k, k - E.x, E.x * k, k * E.x, E.x / k, k / E.x, E.x ** 2], True)
     C["zero_dim_ops"] = (lambda E: [E.x + E.s, E.s + E.x, E.x * E.s, E.s * E.s, E.s - E.x], True)
     C["unary"] = (lambda E: [-E.x, abs(E.x), E.x.abs(), E.x.sign()], True)
@@ -250,6 +251,14 @@ def bad_calls():
     B["set_values_from_df_missing_rows"] = lambda E: E.x.set_values_from_df(E.x.to_df().iloc[1:])
     B["set_values_from_df_foreign_items"] = lambda E: E.x.set_values_from_df(E.z.to_df().rename(index={"a1": "zz"}))
     B["cumsum_unknown_letter"] = lambda E: E.x.cumsum("q")
+    def _other(E, items):
+        return FlodymArray(dims=DimensionSet(dim_list=[Dimension(name="Alpha", letter="a", items=items), E.D["b"]]), values=np.full((len(items), 2), 1.5))
+
+    for opn, op in (("add", lambda u, v: u + v), ("sub", lambda u, v: u - v), ("mul", lambda u, v: u * v), ("div", lambda u, v: u / v), ("min", lambda u, v: u.minimum(v)), ("max", lambda u, v: u.maximum(v))):
+        B[f"{opn}_same_letter_one_item_on_the_left"] = (lambda E, op=op: op(_other(E, ["a1"]), E.x))
+        # (a one-item dimension on the *right* is broadcast by numpy into a result with the left operand's dims: the shape
+        #  invariant holds and nothing has to raise, so that case is not among the ill-formed calls)
+        B[f"{opn}_same_letter_other_length"] = (lambda E, op=op: op(E.x, _other(E, ["a1", "a2", "a3"])))
     B["set_values_zero_dim_ndarray"] = lambda E: E.x.set_values(np.asarray(E.x.values[0, 0]).reshape(()))
     B["setitem_whole_zero_dim_ndarray"] = lambda E: E.x.__setitem__(Ellipsis, E.x.sum_to(()).values)
     B["ctor_zero_dim_ndarray_for_1d"] = lambda E: FlodymArray(dims=E.prm.dims, values=np.asarray(E.prm.values[0]).reshape(()))
@@ -274,6 +283,9 @@ def bad_stock_calls():
     B["stock_array_extended_dims"] = lambda E: SimpleFlowDrivenStock(dims=E.tx.dims, outflow=StockArray(dims=E.ds("tab")))
     B["dsm_lifetime_prefix_dims"] = lambda E: InflowDrivenDSM(dims=E.tx.dims, lifetime_model=FixedLifetime(dims=E.ds("t"), mean=2.0))
     B["dsm_lifetime_extended_dims"] = lambda E: StockDrivenDSM(dims=E.tx.dims, lifetime_model=FixedLifetime(dims=E.ds("tab"), mean=2.0))
+    B["stock_array_same_items_other_order"] = lambda E: SimpleFlowDrivenStock(dims=E.tx.dims, inflow=StockArray(dims=DimensionSet(dim_list=[E.D["t"], Dimension(name="Alpha", letter="a", items=["a2", "a1"])])))
+    B["stock_array_repeated_item"] = lambda E: SimpleFlowDrivenStock(dims=E.tx.dims, inflow=StockArray(dims=DimensionSet(dim_list=[E.D["t"], Dimension(name="Alpha", letter="a", items=["a1", "a2", "a2"])])))
+    B["dsm_lifetime_same_items_other_order"] = lambda E: InflowDrivenDSM(dims=E.tx.dims, lifetime_model=FixedLifetime(dims=DimensionSet(dim_list=[E.D["t"], Dimension(name="Alpha", letter="a", items=["a2", "a1"])]), mean=2.0))
     B["dsm_lifetime_other_letters"] = lambda E: InflowDrivenDSM(dims=E.tx.dims, lifetime_model=FixedLifetime(dims=E.ds("tb"), mean=2.0))
     B["dsm_lifetime_other_length"] = lambda E: InflowDrivenDSM(dims=E.tx.dims, lifetime_model=FixedLifetime(dims=other_time(E, [2000, 2001]), mean=2.0))
     B["dsm_lifetime_not_a_model"] = lambda E: InflowDrivenDSM(dims=E.tx.dims, lifetime_model=int)
